@@ -178,9 +178,14 @@ impl SemanticState {
             let size = size.with_context(|| {
                 format!("failed to find `size` attribute for extern type `{extern_path}` in module `{path}`")
             })?;
-            let alignment = alignment.with_context(|| {
+            let alignment: usize = alignment.with_context(|| {
                 format!("failed to find `align` attribute for extern type `{extern_path}` in module `{path}`")
             })?;
+            if alignment == 0 {
+                anyhow::bail!(
+                    "`align` attribute of extern type `{extern_path}` in module `{path}` must be at least 1"
+                );
+            }
 
             let extern_path = path.join(extern_path.as_str().into());
             if self.type_registry.get(&extern_path).is_some() {
